@@ -139,4 +139,55 @@ example : ∃ A B : SR ℝ, A.name = .longlat ∧ A.axis = enu ∧ A.datum.dtype
                            datum := { (default : Datum ℝ) with dtype := pjdNoDatum } },
    rfl, rfl, rfl, rfl, rfl, rfl, by decide, by decide, by norm_num, by norm_num, by simp⟩
 
+/-! ## the constructors: exactly one documented error branch each -/
+
+/-- **constructors_ok** ("no error reported" at construction, decision level, over ℝ where no field is NaN):
+`Merc`, `TMerc`, `UTM`, `Krovak` and `longlat` never fail; `LCC`, `EqdC` and `AEA` fail EXACTLY when the standard
+parallels are symmetric about the equator (`|lat_1 + lat_2| < 1e-10` — excluded by the property's quantifier);
+hence `Transformers` succeeds for every one of the eight projections with non-symmetric parallels. -/
+theorem C08_constructors_ok (s : SR ℝ) :
+    (∃ c, initMerc s = .ok c) ∧ (∃ c, initTmerc s = .ok c) ∧ (∃ c, initUtm s = .ok c) ∧ (∃ c, initKrovak s = .ok c) ∧
+    ((∃ c, initLcc s = .ok c) ↔ ¬ |s.lat1 + s.lat2| < 1.0e-10) ∧
+    ((∃ c, initEqdc s = .ok c) ↔ ¬ |s.lat1 + s.lat2| < 1.0e-10) ∧
+    ((initAea s).err = none ↔ ¬ |s.lat1 + s.lat2| < 1.0e-10) ∧
+    (s.name ≠ .other → ¬ |s.lat1 + s.lat2| < 1.0e-10 → ∃ t, transformers s = .ok t) := by
+  have hM : ∃ c, initMerc s = .ok c := ⟨_, rfl⟩
+  have hT : ∃ c, initTmerc s = .ok c := ⟨_, rfl⟩
+  have hU : ∃ c, initUtm s = .ok c := by
+    simp only [initUtm, isNaN_real, Bool.false_eq_true, if_false]; exact ⟨_, rfl⟩
+  have hK : ∃ c, initKrovak s = .ok c := ⟨_, rfl⟩
+  have hL : (∃ c, initLcc s = .ok c) ↔ ¬ |s.lat1 + s.lat2| < 1.0e-10 := by
+    by_cases h : |s.lat1 + s.lat2| < 1.0e-10
+    · simp [initLcc, epsln, h]
+    · simp only [h, not_false_eq_true, iff_true]
+      simp only [initLcc, isNaN_real, Bool.false_eq_true, if_false, lt_real, abs_real, epsln, h, decide_false]
+      exact ⟨_, rfl⟩
+  have hE : (∃ c, initEqdc s = .ok c) ↔ ¬ |s.lat1 + s.lat2| < 1.0e-10 := by
+    by_cases h : |s.lat1 + s.lat2| < 1.0e-10
+    · simp [initEqdc, epsln, h]
+    · simp only [h, not_false_eq_true, iff_true]
+      simp only [initEqdc, lt_real, abs_real, epsln, h, decide_false, Bool.false_eq_true, if_false]
+      exact ⟨_, rfl⟩
+  have hA : (initAea s).err = none ↔ ¬ |s.lat1 + s.lat2| < 1.0e-10 := by
+    by_cases h : |s.lat1 + s.lat2| < 1.0e-10 <;> simp [initAea, epsln, h]
+  refine ⟨hM, hT, hU, hK, hL, hE, hA, ?_⟩
+  intro hn hp
+  obtain ⟨cM, hcM⟩ := hM
+  obtain ⟨cT, hcT⟩ := hT
+  obtain ⟨cU, hcU⟩ := hU
+  obtain ⟨cK, hcK⟩ := hK
+  obtain ⟨cL, hcL⟩ := hL.mpr hp
+  obtain ⟨cE, hcE⟩ := hE.mpr hp
+  have hcA := hA.mpr hp
+  cases hname : s.name with
+  | other => exact absurd hname hn
+  | longlat => exact ⟨(fwdLongLat, invLongLat), by simp [transformers, hname]⟩
+  | merc => exact ⟨(fwdMerc cM, invMerc cM), by simp [transformers, hname, hcM, bind, Except.bind, pure, Except.pure]⟩
+  | lcc => exact ⟨(fwdLcc cL, invLcc cL), by simp [transformers, hname, hcL, bind, Except.bind, pure, Except.pure]⟩
+  | aea => exact ⟨(fwdAea (initAea s), invAea (initAea s)), by simp [transformers, hname, hcA]⟩
+  | eqdc => exact ⟨(fwdEqdc cE, invEqdc cE), by simp [transformers, hname, hcE, bind, Except.bind, pure, Except.pure]⟩
+  | tmerc => exact ⟨(fwdTmerc cT, invTmerc cT), by simp [transformers, hname, hcT, bind, Except.bind, pure, Except.pure]⟩
+  | utm => exact ⟨(fwdTmerc cU, invTmerc cU), by simp [transformers, hname, hcU, bind, Except.bind, pure, Except.pure]⟩
+  | krovak => exact ⟨(fwdKrovak cK, invKrovak cK), by simp [transformers, hname, hcK, bind, Except.bind, pure, Except.pure]⟩
+
 end GeomV.C08
